@@ -557,4 +557,317 @@ theorem coordPos_mls_eq_locate_of_count (ls : List (List Pt)) (p : Pt)
     · simp [hN0, hon, PosAcc.result]
     · simp [hN0, hon, PosAcc.result]
 
+/-! ### 2b. areal types without holes: Triangle, Rect -/
+
+/-- `locate` on a single ring without holes -/
+theorem locateParts_ring (ring : List Pt) (p : Pt) :
+    locateParts ⟨[], [], [⟨ring, []⟩]⟩ p =
+      if (!onAnySeg p (segs ring) && windingE (EPt.ofPt p) ring != 0) = true then .inside
+      else if (onAnySeg p (segs ring) || ring == [p]) = true then .onBoundary else .outside := by
+  simp only [locateParts, Parts.areaSegs, Parts.curveSegs, List.any_nil, List.flatMap_nil, onAnySeg,
+    Bool.false_eq_true, if_false, Bool.or_false, List.any_cons, Poly.rings, List.flatMap_cons,
+    List.append_nil, insidePolyE, List.all_nil, Bool.and_true]
+  rfl
+
+theorem windingE_ofPt (p : Pt) (ring : List Pt) :
+    windingE (EPt.ofPt p) ring = ((segs ring).map (fun se => ptInc p se.1 se.2)).sum := by
+  rw [windingE_eq_sum]
+  congr 1
+  apply List.map_congr_left
+  intro se _
+  exact specInc_ofPt p se.1 se.2
+
+/-- a point collinear with a non-horizontal edge and within its half-open y-range is on the edge -/
+theorem lineCoord_of_cross_up {s e p : Pt} (hc : cross s e p = 0) (h1 : s.y ≤ p.y) (h2 : p.y < e.y) :
+    lineCoord s e p = true := by
+  rw [lineCoord_iff]
+  have hd : e.y - s.y ≠ 0 := by intro h; linarith
+  have hpos : 0 < e.y - s.y := by linarith
+  refine ⟨(p.y - s.y) / (e.y - s.y), div_nonneg (by linarith) hpos.le,
+    (div_le_one hpos).mpr (by linarith), ?_, ?_⟩
+  · unfold cross at hc
+    field_simp
+    linarith
+  · field_simp; ring
+
+theorem lineCoord_of_cross_down {s e p : Pt} (hc : cross s e p = 0) (h1 : e.y ≤ p.y) (h2 : p.y < s.y) :
+    lineCoord s e p = true := by
+  rw [lineCoord_iff]
+  apply SegMem_symm
+  rw [← lineCoord_iff]
+  apply lineCoord_of_cross_up _ h1 h2
+  rw [cross_rev, hc, neg_zero]
+
+/-- the height identity: the three edge determinants weigh the vertex heights around `p.y` to 0 -/
+theorem cross_heights (s t u p : Pt) :
+    cross t u p * (s.y - p.y) + cross u s p * (t.y - p.y) + cross s t p * (u.y - p.y) = 0 := by
+  unfold cross; ring
+
+/-- all three edge determinants strictly of one sign -/
+def SameSign (s t u p : Pt) : Prop :=
+  (0 < cross s t p ∧ 0 < cross t u p ∧ 0 < cross u s p) ∨
+  (cross s t p < 0 ∧ cross t u p < 0 ∧ cross u s p < 0)
+
+theorem SameSign_rot {s t u p : Pt} : SameSign s t u p ↔ SameSign t u s p := by
+  unfold SameSign; tauto
+
+/-- one vertex at or below the ray, the next two above -/
+theorem tri_low_high_high {s t u p : Pt} (hs : s.y ≤ p.y) (ht : p.y < t.y) (hu : p.y < u.y)
+    (n1 : lineCoord s t p = false) (n3 : lineCoord u s p = false) :
+    ptInc p s t + ptInc p t u + ptInc p u s ≠ 0 ↔ SameSign s t u p := by
+  have e1 : ptInc p s t = if 0 < cross s t p then 1 else 0 := by
+    unfold ptInc; rw [if_pos hs, if_pos ht]
+  have e2 : ptInc p t u = 0 := by
+    unfold ptInc; rw [if_neg (by linarith), if_neg (by linarith)]
+  have e3 : ptInc p u s = if cross u s p < 0 then -1 else 0 := by
+    unfold ptInc; rw [if_neg (by linarith), if_pos hs]
+  have c1 : cross s t p ≠ 0 := by
+    intro h; rw [lineCoord_of_cross_up h hs ht] at n1; cases n1
+  have c3 : cross u s p ≠ 0 := by
+    intro h; rw [lineCoord_of_cross_down h hs hu] at n3; cases n3
+  have hY := cross_heights s t u p
+  rw [e1, e2, e3]
+  unfold SameSign
+  rcases lt_or_gt_of_ne c1 with h1 | h1 <;> rcases lt_or_gt_of_ne c3 with h3 | h3
+  · -- both negative
+    have n1' : ¬ 0 < cross s t p := by linarith
+    rw [if_neg n1', if_pos h3]
+    have h2 : cross t u p < 0 := by
+      by_contra hc
+      have hc : 0 ≤ cross t u p := le_of_not_gt hc
+      have := mul_nonneg hc (sub_nonneg.mpr hs)
+      have := mul_pos (neg_pos.mpr h3) (sub_pos.mpr ht)
+      have := mul_pos (neg_pos.mpr h1) (sub_pos.mpr hu)
+      nlinarith
+    constructor
+    · intro _; exact Or.inr ⟨h1, h2, h3⟩
+    · intro _; decide
+  · have n1' : ¬ 0 < cross s t p := by linarith
+    have n3' : ¬ cross u s p < 0 := by linarith
+    rw [if_neg n1', if_neg n3']
+    constructor
+    · intro h; exact absurd rfl h
+    · rintro (⟨h, _, _⟩ | ⟨_, _, h⟩) <;> linarith
+  · rw [if_pos h1, if_pos h3]
+    constructor
+    · intro h; exact absurd rfl h
+    · rintro (⟨_, _, h⟩ | ⟨h, _, _⟩) <;> linarith
+  · have n3' : ¬ cross u s p < 0 := by linarith
+    rw [if_pos h1, if_neg n3']
+    have h2 : 0 < cross t u p := by
+      by_contra hc
+      have hc : cross t u p ≤ 0 := le_of_not_gt hc
+      have := mul_nonneg (neg_nonneg.mpr hc) (sub_nonneg.mpr hs)
+      have := mul_pos h3 (sub_pos.mpr ht)
+      have := mul_pos h1 (sub_pos.mpr hu)
+      nlinarith
+    constructor
+    · intro _; exact Or.inl ⟨h1, h2, h3⟩
+    · intro _; decide
+
+/-- the far edge horizontal at the height of `p`, `p` strictly on the inner side of both others -/
+theorem flat_neg {s t u p : Pt} (hs : p.y < s.y) (ht : t.y = p.y) (hu : u.y = p.y)
+    (h1 : cross s t p < 0) (h3 : cross u s p < 0) : lineCoord t u p = true := by
+  have e1 : cross s t p = (s.y - p.y) * (p.x - t.x) := by unfold cross; rw [ht]; ring
+  have e3 : cross u s p = (s.y - p.y) * (u.x - p.x) := by unfold cross; rw [hu]; ring
+  have hpos : 0 < s.y - p.y := by linarith
+  have x1 : p.x < t.x := by
+    by_contra hc; have := mul_nonneg hpos.le (sub_nonneg.mpr (le_of_not_gt hc)); linarith
+  have x3 : u.x < p.x := by
+    by_contra hc; have := mul_nonneg hpos.le (sub_nonneg.mpr (le_of_not_gt hc)); linarith
+  rw [lineCoord_eq, pointInRect_iff]
+  refine ⟨by unfold cross; rw [ht, hu]; ring, Or.inr ⟨x3.le, x1.le⟩, Or.inl ⟨ht.le, hu.ge⟩⟩
+
+theorem flat_pos {s t u p : Pt} (hs : p.y < s.y) (ht : t.y = p.y) (hu : u.y = p.y)
+    (h1 : 0 < cross s t p) (h3 : 0 < cross u s p) : lineCoord t u p = true := by
+  have e1 : cross s t p = (s.y - p.y) * (p.x - t.x) := by unfold cross; rw [ht]; ring
+  have e3 : cross u s p = (s.y - p.y) * (u.x - p.x) := by unfold cross; rw [hu]; ring
+  have hpos : 0 < s.y - p.y := by linarith
+  have x1 : t.x < p.x := by
+    by_contra hc
+    have := mul_nonneg hpos.le (sub_nonneg.mpr (le_of_not_gt hc)); nlinarith
+  have x3 : p.x < u.x := by
+    by_contra hc
+    have := mul_nonneg hpos.le (sub_nonneg.mpr (le_of_not_gt hc)); nlinarith
+  rw [lineCoord_eq, pointInRect_iff]
+  refine ⟨by unfold cross; rw [ht, hu]; ring, Or.inl ⟨x1.le, x3.le⟩, Or.inl ⟨ht.le, hu.ge⟩⟩
+
+/-- one vertex above the ray, the next two at or below -/
+theorem tri_high_low_low {s t u p : Pt} (hs : p.y < s.y) (ht : t.y ≤ p.y) (hu : u.y ≤ p.y)
+    (n1 : lineCoord s t p = false) (n2 : lineCoord t u p = false) (n3 : lineCoord u s p = false) :
+    ptInc p s t + ptInc p t u + ptInc p u s ≠ 0 ↔ SameSign s t u p := by
+  have e1 : ptInc p s t = if cross s t p < 0 then -1 else 0 := by
+    unfold ptInc; rw [if_neg (by linarith), if_pos ht]
+  have e2 : ptInc p t u = 0 := by
+    unfold ptInc; rw [if_pos ht, if_neg (by linarith)]
+  have e3 : ptInc p u s = if 0 < cross u s p then 1 else 0 := by
+    unfold ptInc; rw [if_pos hu, if_pos hs]
+  have c1 : cross s t p ≠ 0 := by
+    intro h; rw [lineCoord_of_cross_down h ht hs] at n1; cases n1
+  have c3 : cross u s p ≠ 0 := by
+    intro h; rw [lineCoord_of_cross_up h hu hs] at n3; cases n3
+  have hY := cross_heights s t u p
+  rw [e1, e2, e3]
+  unfold SameSign
+  rcases lt_or_gt_of_ne c1 with h1 | h1 <;> rcases lt_or_gt_of_ne c3 with h3 | h3
+  · have n3' : ¬ 0 < cross u s p := by linarith
+    rw [if_pos h1, if_neg n3']
+    have h2 : cross t u p < 0 := by
+      have a1 := mul_nonneg (neg_nonneg.mpr h3.le) (sub_nonneg.mpr ht)
+      have a2 := mul_nonneg (neg_nonneg.mpr h1.le) (sub_nonneg.mpr hu)
+      have hle : cross t u p ≤ 0 := by
+        by_contra hc
+        have := mul_pos (lt_of_not_ge hc) (sub_pos.mpr hs); nlinarith
+      rcases hle.lt_or_eq with h | h
+      · exact h
+      · exfalso
+        rw [h, zero_mul] at hY
+        have b1 : -cross u s p * (p.y - t.y) = 0 := by nlinarith
+        have b2 : -cross s t p * (p.y - u.y) = 0 := by nlinarith
+        have t1 : t.y = p.y := by rcases mul_eq_zero.mp b1 with x | x <;> linarith
+        have t2 : u.y = p.y := by rcases mul_eq_zero.mp b2 with x | x <;> linarith
+        rw [flat_neg hs t1 t2 h1 h3] at n2; cases n2
+    constructor
+    · intro _; exact Or.inr ⟨h1, h2, h3⟩
+    · intro _; decide
+  · rw [if_pos h1, if_pos h3]
+    constructor
+    · intro h; exact absurd rfl h
+    · rintro (⟨h, _, _⟩ | ⟨_, _, h⟩) <;> linarith
+  · have n1' : ¬ cross s t p < 0 := by linarith
+    have n3' : ¬ 0 < cross u s p := by linarith
+    rw [if_neg n1', if_neg n3']
+    constructor
+    · intro h; exact absurd rfl h
+    · rintro (⟨_, _, h⟩ | ⟨h, _, _⟩) <;> linarith
+  · have n1' : ¬ cross s t p < 0 := by linarith
+    rw [if_neg n1', if_pos h3]
+    have h2 : 0 < cross t u p := by
+      have a1 := mul_nonneg h3.le (sub_nonneg.mpr ht)
+      have a2 := mul_nonneg h1.le (sub_nonneg.mpr hu)
+      have hle : 0 ≤ cross t u p := by
+        by_contra hc
+        have := mul_pos (neg_pos.mpr (lt_of_not_ge hc)) (sub_pos.mpr hs); nlinarith
+      rcases hle.lt_or_eq with h | h
+      · exact h
+      · exfalso
+        rw [← h, zero_mul] at hY
+        have b1 : cross u s p * (p.y - t.y) = 0 := by nlinarith
+        have b2 : cross s t p * (p.y - u.y) = 0 := by nlinarith
+        have t1 : t.y = p.y := by rcases mul_eq_zero.mp b1 with x | x <;> linarith
+        have t2 : u.y = p.y := by rcases mul_eq_zero.mp b2 with x | x <;> linarith
+        rw [flat_pos hs t1 t2 h1 h3] at n2; cases n2
+    constructor
+    · intro _; exact Or.inl ⟨h1, h2, h3⟩
+    · intro _; decide
+
+theorem tri_all_low {s t u p : Pt} (hs : s.y ≤ p.y) (ht : t.y ≤ p.y) (hu : u.y ≤ p.y) :
+    ptInc p s t + ptInc p t u + ptInc p u s ≠ 0 ↔ SameSign s t u p := by
+  have e1 : ptInc p s t = 0 := by unfold ptInc; rw [if_pos hs, if_neg (by linarith)]
+  have e2 : ptInc p t u = 0 := by unfold ptInc; rw [if_pos ht, if_neg (by linarith)]
+  have e3 : ptInc p u s = 0 := by unfold ptInc; rw [if_pos hu, if_neg (by linarith)]
+  rw [e1, e2, e3]
+  have hY := cross_heights s t u p
+  constructor
+  · intro h; exact absurd rfl h
+  · intro h _
+    have key : ∀ w1 w2 w3 : Rat, 0 < w1 → 0 < w2 → 0 < w3 →
+        w2 * (s.y - p.y) + w3 * (t.y - p.y) + w1 * (u.y - p.y) = 0 → t.y = p.y ∧ u.y = p.y := by
+      intro w1 w2 w3 h1 h2 h3 hz
+      have a1 := mul_nonneg h2.le (sub_nonneg.mpr hs)
+      have a2 := mul_nonneg h3.le (sub_nonneg.mpr ht)
+      have a3 := mul_nonneg h1.le (sub_nonneg.mpr hu)
+      have b2 : w3 * (p.y - t.y) = 0 := by nlinarith
+      have b3 : w1 * (p.y - u.y) = 0 := by nlinarith
+      constructor
+      · rcases mul_eq_zero.mp b2 with x | x <;> linarith
+      · rcases mul_eq_zero.mp b3 with x | x <;> linarith
+    have hz : ∀ (e1 : t.y = p.y) (e2 : u.y = p.y), cross t u p = 0 := by
+      intro e1 e2; unfold cross; rw [e1, e2]; ring
+    rcases h with ⟨h1, h2, h3⟩ | ⟨h1, h2, h3⟩
+    · obtain ⟨e1, e2⟩ := key _ _ _ h1 h2 h3 hY
+      have := hz e1 e2; linarith
+    · obtain ⟨e1, e2⟩ := key (-cross s t p) (-cross t u p) (-cross u s p) (by linarith) (by linarith)
+        (by linarith) (by linarith)
+      have := hz e1 e2; linarith
+
+theorem tri_all_high {s t u p : Pt} (hs : p.y < s.y) (ht : p.y < t.y) (hu : p.y < u.y) :
+    ptInc p s t + ptInc p t u + ptInc p u s ≠ 0 ↔ SameSign s t u p := by
+  have e1 : ptInc p s t = 0 := by unfold ptInc; rw [if_neg (by linarith), if_neg (by linarith)]
+  have e2 : ptInc p t u = 0 := by unfold ptInc; rw [if_neg (by linarith), if_neg (by linarith)]
+  have e3 : ptInc p u s = 0 := by unfold ptInc; rw [if_neg (by linarith), if_neg (by linarith)]
+  rw [e1, e2, e3]
+  have hY := cross_heights s t u p
+  constructor
+  · intro h; exact absurd rfl h
+  · intro h _
+    rcases h with ⟨h1, h2, h3⟩ | ⟨h1, h2, h3⟩
+    · have := mul_pos h2 (sub_pos.mpr hs)
+      have := mul_pos h3 (sub_pos.mpr ht)
+      have := mul_pos h1 (sub_pos.mpr hu)
+      linarith
+    · have := mul_pos (neg_pos.mpr h2) (sub_pos.mpr hs)
+      have := mul_pos (neg_pos.mpr h3) (sub_pos.mpr ht)
+      have := mul_pos (neg_pos.mpr h1) (sub_pos.mpr hu)
+      nlinarith
+
+/-- Off the three edges, the specification's winding number of a triangle ring is non-zero exactly
+when the three edge determinants have one strict sign (no orientation or non-degeneracy
+assumption). -/
+theorem tri_winding {a b c p : Pt} (n1 : lineCoord a b p = false) (n2 : lineCoord b c p = false)
+    (n3 : lineCoord c a p = false) :
+    ptInc p a b + ptInc p b c + ptInc p c a ≠ 0 ↔ SameSign a b c p := by
+  have r1 : ptInc p a b + ptInc p b c + ptInc p c a = ptInc p b c + ptInc p c a + ptInc p a b := by omega
+  have r2 : ptInc p a b + ptInc p b c + ptInc p c a = ptInc p c a + ptInc p a b + ptInc p b c := by omega
+  have s1 : SameSign a b c p ↔ SameSign b c a p := SameSign_rot
+  have s2 : SameSign a b c p ↔ SameSign c a b p := SameSign_rot.symm
+  by_cases ha : a.y ≤ p.y <;> by_cases hb : b.y ≤ p.y <;> by_cases hc : c.y ≤ p.y
+  · exact tri_all_low ha hb hc
+  · rw [r2, s2]; exact tri_high_low_low (lt_of_not_ge hc) ha hb n3 n1 n2
+  · rw [r1, s1]; exact tri_high_low_low (lt_of_not_ge hb) hc ha n2 n3 n1
+  · exact tri_low_high_high ha (lt_of_not_ge hb) (lt_of_not_ge hc) n1 n3
+  · exact tri_high_low_low (lt_of_not_ge ha) hb hc n1 n2 n3
+  · rw [r1, s1]; exact tri_low_high_high hb (lt_of_not_ge hc) (lt_of_not_ge ha) n2 n1
+  · rw [r2, s2]; exact tri_low_high_high hc (lt_of_not_ge ha) (lt_of_not_ge hb) n3 n2
+  · exact tri_all_high (lt_of_not_ge ha) (lt_of_not_ge hb) (lt_of_not_ge hc)
+
+theorem calcTriangle_eq (a b c p : Pt) (acc : PosAcc) :
+    calcTriangle a b c p acc =
+      if (lineCoord a b p || lineCoord b c p || lineCoord c a p) = true then
+        { acc with bcount := acc.bcount + 1 }
+      else if triContainsCoord a b c p = true then { acc with inside := true } else acc := rfl
+
+/-- `coordinate_position` of a Triangle (after the fix; any vertex order, degenerate or not) is the
+specification's location on the ring `[a, b, c, a]`. -/
+theorem coordPos_triangle_eq_locate (a b c p : Pt) :
+    coordPos (.triangle a b c) p = locate (.triangle a b c) p := by
+  have hl : locate (.triangle a b c) p = locateParts ⟨[], [], [⟨[a, b, c, a], []⟩]⟩ p := rfl
+  rw [hl, locateParts_ring, windingE_ofPt]
+  have hs : segs [a, b, c, a] = [(a, b), (b, c), (c, a)] := rfl
+  have hne : ([a, b, c, a] == [p]) = false := by simp
+  rw [hs, hne]
+  simp only [coordPos, calcPos, calcTriangle_eq, onAnySeg, List.any_cons, List.any_nil, Bool.or_false,
+    List.map_cons, List.map_nil, List.sum_cons, List.sum_nil, add_zero]
+  by_cases n1 : lineCoord a b p = true
+  · simp [n1, PosAcc.result]
+  by_cases n2 : lineCoord b c p = true
+  · simp [n2, PosAcc.result]
+  by_cases n3 : lineCoord c a p = true
+  · simp [n3, PosAcc.result]
+  have n1' : lineCoord a b p = false := by simpa using n1
+  have n2' : lineCoord b c p = false := by simpa using n2
+  have n3' : lineCoord c a p = false := by simpa using n3
+  have hw := tri_winding n1' n2' n3'
+  rw [← add_assoc] at *
+  by_cases ht : triContainsCoord a b c p = true
+  · have : ptInc p a b + ptInc p b c + ptInc p c a ≠ 0 := hw.mpr ((triContainsCoord_iff a b c p).mp ht)
+    simp [n1', n2', n3', ht, this, PosAcc.result]
+  · have : ptInc p a b + ptInc p b c + ptInc p c a = 0 := by
+      by_contra hne
+      exact ht ((triContainsCoord_iff a b c p).mpr (hw.mp hne))
+    simp [n1', n2', n3', ht, this, PosAcc.result]
+
+example : coordPos (.triangle ⟨0, 0⟩ ⟨2, 0⟩ ⟨0, 2⟩) ⟨0, 1⟩ = .onBoundary := by
+  rw [coordPos_triangle_eq_locate]; decide +kernel
+
 end Geo.Proofs.Loc
